@@ -115,6 +115,9 @@ def oracle(case, obs, ctx, idx):
     why = S.representable(obs)
     if "error" in obs:
         return ("driver-error", obs["error"]), facts
+    bad_clock = S.log_insane(obs)
+    if bad_clock:
+        return ("clock-not-an-exact-number", bad_clock), facts
     base = ctx[idx]
     init = case["cmds"][0]
     start, end = init[1], init[3]
